@@ -1,0 +1,20 @@
+//go:build verif
+
+package cmd
+
+import "ti/base"
+
+// VerifIsSuggest / VerifIsParentClass / VerifCalcObjectClass expose the completion predicates of out.go.
+func VerifIsSuggest(targetT base.T, sig base.Sig) bool { return isSuggest(targetT, sig) }
+
+func VerifIsParentClass(sig base.Sig, frame, class string, isStaticTarget, isExtend, isInclude bool) bool {
+	return isParentClass(sig, frame, class, isStaticTarget, isExtend, isInclude)
+}
+
+func VerifCalcObjectClass(targetT base.T) (string, bool) {
+	return calculateObjectClassAndIsStatic(targetT)
+}
+
+func VerifIsSuggestForKernelOrObject(targetT base.T, sigClass string) bool {
+	return isSuggestForKernelOrObjectClass(targetT, sigClass)
+}
